@@ -40,7 +40,8 @@ def cases(draw):
         reads.append({"burn_u": draw(st.floats(0, 1.1)), "thin_u": draw(st.one_of(st.sampled_from([0.0, 0.0]), st.floats(0, 1.1))),
                       "burn_edge": draw(st.sampled_from([None, None, 0, -1, -2, 1, 2, 3])),
                       "index": draw(st.integers(0, 3)), "interval": draw(st.one_of(st.sampled_from([0.95, 0.5, 0.9, 0.8]), st.floats(0.02, 0.98), st.sampled_from([1e-4, 1e-3, 0.999, 0.9999]))),
-                      "samples_u": draw(st.one_of(st.none(), st.floats(0, 2))), "marginal": draw(st.sampled_from([False, False, True]))})
+                      "samples_u": draw(st.one_of(st.none(), st.floats(0, 2))), "marginal": draw(st.sampled_from([False, False, True])),
+                      "samples_type": draw(st.sampled_from([None, None, "uint8", "uint16", "int16", "uint64"]))})
     cfg["reads"] = reads
     # second phase on the same (by now already read-out) sampler: more steps, a tempering exchange of the last point, a save / load,
     # then the same read-outs again
@@ -217,6 +218,20 @@ def read_outs(cfg, ch, model_s, model_p, reads, ctx):
                 raise Violation(f"get_interval-shape:{cls}:empty", f"burn={burn}, thin={thin}, n={n}: get_interval returned shapes {iv_s.shape}, {iv_p.shape} for an empty selection")
         if gx.shape != (k,) or not np.array_equal(gx, exp_s[:, idx]):
             raise Violation(f"get_parameter:{tag}", f"burn={burn}, thin={thin}, n={n}, index={idx}: shape {gx.shape}, expected ({k},)")
+        # what is returned is the caller's to post-process (centre it, sort it): the chain keeps its entries - the next read-outs, in
+        # this loop and in the second phase, are judged against the same model
+        if rd.get("postprocess", True):
+            for arr in (gs, gp, gx):
+                if isinstance(arr, np.ndarray) and arr.flags.writeable and arr.size:
+                    with np.errstate(all="ignore"):
+                        arr -= 1.0 + np.abs(arr).max()
+            with np.errstate(all="ignore"), warnings.catch_warnings():
+                warnings.simplefilter("ignore")
+                again = np.asarray(ch.get_probabilities(burn=burn, thin=thin))
+                again_s = np.asarray(ch.get_sample(burn=burn, thin=thin))
+            if not np.array_equal(again, exp_p) or (k > 0 and not np.array_equal(again_s, exp_s)):
+                raise Violation(f"readout-is-a-view:{cls}", f"burn={burn}, thin={thin}: after the caller changed the arrays it got from get_sample / get_probabilities / get_parameter in place, "
+                                                            f"the same read-outs return other values: the stored chain was rewritten")
         # marginal estimates are built from exactly those values
         if rd["marginal"] and k >= 3 and np.unique(exp_s[:, idx]).size >= 3:
             with warnings.catch_warnings():
@@ -248,7 +263,10 @@ def read_outs(cfg, ch, model_s, model_p, reads, ctx):
                 warnings.simplefilter("ignore")
                 with np.errstate(all="ignore"):
                     rngctl.reset(cfg["seed"] + 17)
-                    iv_s, iv_p = ch.get_interval(interval=rd["interval"], burn=burn, thin=thin, samples=samples)
+                    s_arg = samples
+                    if samples is not None and rd.get("samples_type") and samples <= np.iinfo(rd["samples_type"]).max:
+                        s_arg = np.dtype(rd["samples_type"]).type(samples)      # (a count read from an array)
+                    iv_s, iv_p = ch.get_interval(interval=rd["interval"], burn=burn, thin=thin, samples=s_arg)
             iv_s, iv_p = np.asarray(iv_s), np.asarray(iv_p)
             itag = f"{cls}:{'count' if samples is not None else 'all'}"
             if iv_s.ndim != 2 or iv_p.ndim != 1 or iv_s.shape[0] != iv_p.shape[0] or (iv_s.shape[0] and iv_s.shape[1] != d):
